@@ -200,8 +200,17 @@ def main():
         else:
             new_viol.append(v)
 
+    # obligations that fail ONLY because of a listed known finding are not claimed as proved: they are taken out of
+    # the obligations/discharged count and listed separately (a proof-level record must have discharged == obligations)
+    kf_units = set()
+    for v in violations:
+        if v not in new_viol and v["backend"] in ("kani", "verus"):
+            kf_units.add((v["backend"], v.get("unit") or v["harness"]["name"], v["function"]))
+    known_obls = sorted(f"{b}:{u}:{f}" for (b, u, f) in kf_units)
+    obligations -= len(kf_units)
+
     # replay files
-    rdir = os.path.join(VERIF, ".work", "replay")
+    rdir = os.path.join(VERIF, ".work", "replay") if not os.environ.get("VERIF_EVIDENCE_DIR") else os.path.join(os.environ["VERIF_EVIDENCE_DIR"], "replay")
     os.makedirs(rdir, exist_ok=True)
     vio_lines = []
     for i, v in enumerate(new_viol):
@@ -233,6 +242,37 @@ def main():
         suffix = "" if witness else " no-failing-input-found"
         vio_lines.append(f"VIOLATION property={pid} replay={path}{suffix}")
 
+    # thorough tier: self-test against the confirmed seeded changes of this property (exit code unaffected)
+    selftest = []
+    if tier == "thorough" and not new_viol and not undecided and os.environ.get("VERIF_NO_SELFTEST") != "1":
+        import glob, shutil, subprocess
+        for mp in sorted(glob.glob(os.path.join(VERIF, "seeded", "*", "meta.json"))):
+            try:
+                meta = json.load(open(mp))
+            except Exception:
+                continue
+            if meta.get("property") != pid:
+                continue
+            sd = os.path.dirname(mp)
+            scratch = os.path.join("/var/tmp", "sonic-verif-selftest-" + pid)
+            shutil.rmtree(scratch, ignore_errors=True)
+            subprocess.run(["rsync", "-a", "--exclude", "target", "--exclude", ".git", vf.REPO.rstrip("/") + "/", scratch + "/"], check=False)
+            ap = subprocess.run(["git", "apply", "--unsafe-paths", "--directory", scratch, os.path.join(sd, "patch.diff")],
+                                cwd="/", capture_output=True, text=True)
+            if ap.returncode != 0:
+                ap = subprocess.run(["patch", "-p1", "-d", scratch, "-i", os.path.join(sd, "patch.diff")], capture_output=True, text=True)
+            if ap.returncode != 0:
+                selftest.append({"seed": os.path.basename(sd), "result": "patch does not apply to the current tree"})
+                shutil.rmtree(scratch, ignore_errors=True)
+                continue
+            env = dict(os.environ, VERIF_REPO=scratch, VERIF_WORK="/var/tmp/sonic-verif-selftest-work", VERIF_NO_SELFTEST="1",
+                       VERIF_EVIDENCE_DIR="/var/tmp/sonic-verif-selftest-work/evidence")
+            pr = subprocess.run([sys.executable, os.path.abspath(__file__), pid, "--tier", "quick"], env=env, capture_output=True, text=True)
+            selftest.append({"seed": os.path.basename(sd), "exit": pr.returncode, "detected": pr.returncode == 1,
+                             "summary": meta.get("summary", "")[:200]})
+            shutil.rmtree(scratch, ignore_errors=True)
+        shutil.rmtree("/var/tmp/sonic-verif-selftest-work", ignore_errors=True)
+
     wall = round(time.time() - t0, 2)
     ev = {
         "property_id": pid, "tier": tier, "seed": seed, "level": P.get("level", "proof"),
@@ -250,15 +290,18 @@ def main():
             "syntactic_checks": synt,
             "extracted_items": items,
             "undecided": undecided,
+            "selftest_seeded_changes": selftest,
             "known_findings_hit": sorted(printed),
+            "known_finding_obligations_not_counted": known_obls,
             "explanation": P.get("explanation", ""),
         },
         "assumptions": trusted,
         "wall_s": wall,
         "violations": len(new_viol),
     }
-    os.makedirs(os.path.join(VERIF, "evidence"), exist_ok=True)
-    json.dump(ev, open(os.path.join(VERIF, "evidence", pid + ".json"), "w"), indent=1)
+    evdir = os.environ.get("VERIF_EVIDENCE_DIR") or os.path.join(VERIF, "evidence")
+    os.makedirs(evdir, exist_ok=True)
+    json.dump(ev, open(os.path.join(evdir, pid + ".json"), "w"), indent=1)
 
     print(f"[{pid}] tier={tier} obligations={obligations} discharged={discharged} bounded={len(bounded)} "
           f"violations={len(new_viol)} undecided={len(undecided)} wall={wall}s")
